@@ -5,6 +5,7 @@ import OutrankModel.Drv.MI
 import OutrankModel.Drv.C14
 import OutrankModel.Drv.C16
 import OutrankModel.Drv.C18
+import OutrankModel.Drv.C05
 /-!
 Line-protocol driver (DESIGN §2.2): one request per line on stdin, one reply per line on stdout.
 Adds only parsing and printing around the definitions the theorems are about.  Each property contributes one
@@ -18,7 +19,8 @@ def handlers : List (String × Handler) := [
   ("MI", MIDrv.drv),
   ("C14", C14Drv.drv),
   ("C16", C16Drv.drv),
-  ("C18", C18Drv.drv)
+  ("C18", C18Drv.drv),
+  ("C05", C05Drv.drv)
 ]
 
 abbrev DState := List (String × Val)
